@@ -78,9 +78,12 @@ Section Protocol.
 
   (* ProtocolServer.Serve's loop.  [store] answers GetChunk.  The result is everything the
      server writes before Serve returns; the server stops reading at the first of: read
-     error, GOODBYE, ABORT, unknown message, a failing store -- and, as the code stands,
-     after answering MISSING ("return errors.Wrap(err, ...)" with err == nil returns nil). *)
-  Fixpoint serve_loop (fuel : nat) (store : id -> get_result) (from_client : bytes) : bytes :=
+     error, GOODBYE, ABORT, unknown message, a failing store.  After answering MISSING it
+     carries on with the next request ("continue", fix 9771602); [stop_after_missing = true]
+     is the code before that fix, where "return errors.Wrap(err, ...)" with err == nil
+     returned nil and ended the session. *)
+  Fixpoint serve_loop_gen (stop_after_missing : bool) (fuel : nat) (store : id -> get_result)
+           (from_client : bytes) : bytes :=
     match fuel with
     | O => []
     | S fuel' =>
@@ -92,19 +95,23 @@ Section Protocol.
               else
                 let i := id_of_bytes (firstn 32 (skipn 8 (m_body m))) in
                 match store i with
-                | GMissing => write_message (missing_msg i)          (* and Serve returns *)
+                | GMissing =>
+                    write_message (missing_msg i)
+                      ++ (if stop_after_missing then [] else serve_loop_gen stop_after_missing fuel' store rest)
                 | GFail => []
                 | GChunk c =>
                     match chunk_data zdecomp c with
                     | None => []
                     | Some d =>
                         write_message (chunk_msg (chunk_id H zdecomp c) CaProtocolChunkCompressed (zcomp d))
-                          ++ serve_loop fuel' store rest
+                          ++ serve_loop_gen stop_after_missing fuel' store rest
                     end
                 end
             else []
         end
     end.
+
+  Definition serve_loop := serve_loop_gen false.
 
   (* one session: the client asks for the ids one after the other (RemoteSSH.GetChunk on
      one pooled session); the server's output is consumed reply by reply *)
@@ -117,6 +124,11 @@ Section Protocol.
     | i :: r => let (res, rest) := request_chunk_reply i from_server in res :: client_replies r rest
     end.
 
-  Definition session (store : id -> get_result) (ids : list id) : list chunk_res :=
-    client_replies ids (serve_loop (S (length ids)) store (client_requests ids)).
+  Definition session_gen (stop_after_missing : bool) (store : id -> get_result) (ids : list id) : list chunk_res :=
+    client_replies ids (serve_loop_gen stop_after_missing (S (length ids)) store (client_requests ids)).
+
+  (* the code as it is *)
+  Definition session := session_gen false.
+  (* the code before fix 9771602 *)
+  Definition session_prefix := session_gen true.
 End Protocol.
